@@ -34,6 +34,18 @@ def generic(mod, prop, tier, seed, replay):
     return out
 
 
+def merged(out, o2):
+    out.evaluations += o2.evaluations
+    out.distinct |= o2.distinct
+    out.samples = out.samples[:3] + o2.samples[:3]
+    for k, v in o2.dist.items():
+        out.dist[k] = out.dist.get(k, 0) + v
+    out.disagreements += o2.disagreements
+    out.violations += o2.violations
+    out.notes += o2.notes
+    return out
+
+
 def main():
     prop, tier, seed, outp = sys.argv[1], sys.argv[2], int(sys.argv[3]), sys.argv[4]
     replay = None
@@ -57,7 +69,13 @@ def main():
 
         out = generic(str_h, prop, tier, seed, replay)
         rule = RULES["str"]
-    elif prop in ("C09", "C14"):
+    elif prop == "C09":
+        import alloc_h
+        import edit_h
+
+        out = merged(generic(alloc_h, prop, tier, seed, replay), generic(edit_h, prop, tier, seed, replay))
+        rule = RULES["alloc"] + " || " + RULES["edit"]
+    elif prop == "C14":
         import alloc_h
 
         out = generic(alloc_h, prop, tier, seed, replay)
@@ -86,16 +104,7 @@ def main():
         import edit_h
         import rich_h
 
-        out = generic(rich_h, prop, tier, seed, replay)
-        o2 = generic(edit_h, prop, tier, seed, replay)
-        out.evaluations += o2.evaluations
-        out.distinct |= o2.distinct
-        out.samples = out.samples[:3] + o2.samples[:3]
-        for k, v in o2.dist.items():
-            out.dist[k] = out.dist.get(k, 0) + v
-        out.disagreements += o2.disagreements
-        out.violations += o2.violations
-        out.notes += o2.notes
+        out = merged(generic(rich_h, prop, tier, seed, replay), generic(edit_h, prop, tier, seed, replay))
         rule = RULES["rich"] + " || " + RULES["edit"]
     elif prop == "C13":
         import effects_h
